@@ -298,6 +298,20 @@ def programs(rng, tier):
             vs = sorted(rng.sample(range(nv), 3))
             b = bdd_from_tt(nv, vs, list(raw_tt(a)))
             family(P, b, with_clauses=True)
+    # single edges skipping EXACTLY g levels for g around the exponent limits of binary64 (2^g is representable up to g = 1023):
+    # x_i and all of x_{i+1+g} .. x_{last}: the count is 2^(i+g), finite as a double iff i + g <= 1023
+    for g in [52, 53, 54, 62, 63, 64, 65, 1020, 1021, 1022, 1023, 1024, 1025, 1026, 2046, 2047, 2048]:
+        for i in ((0,) if quick else (0, 1, 2)):
+            for tail in ((1, 3) if quick else (1, 2, 3, 5)):
+                nv = i + 1 + g + tail
+                nodes = [(nv, 0, 0), (nv, 1, 1)]
+                cur = 1
+                for v in range(nv - 1, i + g, -1):
+                    nodes.append((v, 0, cur))
+                    cur = len(nodes) - 1
+                pos = rng.random() < 0.5
+                nodes.append((i, 0, cur) if pos else (i, cur, 0))
+                family(P, nodes, with_clauses=True)
     # (2) random functions with skipped levels
     nrand = 400 if quick else 8000
     pool = {}
